@@ -126,6 +126,16 @@ def main():
             _verif.emit("x_new", solver=solver, config=config_text(solver),
                         ckpt_enabled=bool(solver.is_checkpointing_enabled),
                         ckpt_dir=str(getattr(solver, "checkpoint_dir", "") or ""))
+        elif name == "save_as":
+            # the user saves through the public save(step) with a label of their own (a milestone number)
+            if solver is None:
+                continue
+            _verif.emit("x_user_save_begin", label=int(op["label"]))
+            try:
+                solver.save(int(op["label"]))
+            except Exception as ex:
+                _verif.emit("x_solve_failed", exc=type(ex).__name__, msg="save(label): " + str(ex)[:200])
+            _verif.emit("x_user_save_end")
         elif name == "sleep":
             import time
             time.sleep(float(op["s"]))
